@@ -32,6 +32,65 @@ theorem chunkRest_snoc (r : Nat) (ts : List (Tok α)) (t : Tok α) :
 @[simp] theorem chunks_nil (r : Nat) : chunks r ([] : List (Tok α)) = [] := rfl
 @[simp] theorem chunkRest_nil (r : Nat) : chunkRest r ([] : List (Tok α)) = [] := rfl
 
+/-- Chunking neither loses nor reorders anything: the chunks followed by the trailing partial chunk are the
+    input sequence. -/
+theorem chunks_flatten (r : Nat) (ts : List (Tok α)) : (chunks r ts).flatten ++ chunkRest r ts = ts := by
+  have gen : ∀ (ts : List (Tok α)) (st : List (List (Tok α)) × List (Tok α)),
+      (ts.foldl (chunkStep r) st).1.flatten ++ (ts.foldl (chunkStep r) st).2 = st.1.flatten ++ st.2 ++ ts := by
+    intro ts
+    induction ts with
+    | nil => intro st; simp
+    | cons t ts ih =>
+      intro st
+      rw [List.foldl_cons, ih]
+      unfold chunkStep
+      split <;> simp
+  simpa [chunks, chunkRest, chunkRun] using gen ts ([], [])
+
+/-- What a well-formed chunk looks like. -/
+def ChunkOk (r : Nat) (c : List (Tok α)) : Prop :=
+  c ≠ [] ∧ c.length ≤ r ∧ (∀ t ∈ c.dropLast, t.last = false) ∧
+  (c.length = r ∨ ∃ t, c.getLast? = some t ∧ t.last = true)
+
+/-- Every chunk is non-empty, at most `r` long, carries `last` at most on its final token, and is cut short
+    only by `last`; the trailing partial chunk is shorter than `r` and free of `last`. -/
+theorem chunks_shape (r : Nat) (hr : 0 < r) (ts : List (Tok α)) :
+    (∀ c ∈ chunks r ts, ChunkOk r c) ∧ (chunkRest r ts).length < r ∧ ∀ t ∈ chunkRest r ts, t.last = false := by
+  have gen : ∀ (ts : List (Tok α)) (st : List (List (Tok α)) × List (Tok α)),
+      ((∀ c ∈ st.1, ChunkOk r c) ∧ st.2.length < r ∧ ∀ t ∈ st.2, t.last = false) →
+      ((∀ c ∈ (ts.foldl (chunkStep r) st).1, ChunkOk r c) ∧ (ts.foldl (chunkStep r) st).2.length < r ∧
+        ∀ t ∈ (ts.foldl (chunkStep r) st).2, t.last = false) := by
+    intro ts
+    induction ts with
+    | nil => intro st h; simpa using h
+    | cons t ts ih =>
+      intro st ⟨h1, h2, h3⟩
+      rw [List.foldl_cons]
+      apply ih
+      unfold chunkStep
+      split
+      next hc =>
+        refine ⟨?_, by simpa using hr, by simp⟩
+        intro c hc'
+        rcases List.mem_append.mp hc' with hc' | hc'
+        · exact h1 c hc'
+        · have : c = st.2 ++ [t] := by simpa using hc'
+          subst this
+          refine ⟨by simp, by simp; omega, by simpa using h3, ?_⟩
+          simp only [Bool.or_eq_true, beq_iff_eq] at hc
+          rcases hc with hc | hc
+          · left; simp [hc]
+          · right; exact ⟨t, by simp, hc⟩
+      next hc =>
+        simp only [Bool.or_eq_true, beq_iff_eq, not_or, Bool.not_eq_true] at hc
+        refine ⟨h1, by simp; omega, ?_⟩
+        intro x hx
+        rcases List.mem_append.mp hx with hx | hx
+        · exact h3 x hx
+        · have : x = t := by simpa using hx
+          subst this; exact hc.2
+  simpa [chunks, chunkRest, chunkRun] using gen ts ([], []) ⟨by simp, by simpa using hr, by simp⟩
+
 /-! ### _UpConverter / Pack -/
 
 /-- The complete word waiting in the output register. -/
